@@ -86,6 +86,10 @@ impl Uci {
                         return Err("Search is already running".to_string());
                     }
                     // The previous search has answered (or was stopped): wait for its thread to exit
+                    #[cfg(rce_verif)]
+                    if !jh.is_finished() {
+                        crate::rce_verif::point("uci.go_join");
+                    }
                     let _ = jh.join();
                 }
                 self.go(limits);
